@@ -5,6 +5,15 @@ ASSUMPTIONS = ["c12_namelist: getenv(\"HOSTALIASES\") is set or not; aliasfile_s
                "upper-case in the file; file readable / missing / unreadable / allocation failure) - the real file parser is checked on "
                "arbitrary bytes in C15",
                "strlen(name under test) is the job's concrete length by construction (harness strlen model says so; CBMC cannot fold it)",
+               "c12_walk_gai_*: contract stubs ares_query_nolock (pending / synchronous failure with any status, callback first / cache "
+               "answer), ares_parse_into_addrinfo (success with >= 1 node / ENODATA / EBADRESP / ENOMEM; real one in C13), "
+               "ares_hosts_search_host + ares_hosts_entry_to_addrinfo (any status, success appends >= 1 node), ares_sortaddrinfo no-op, "
+               "ares_inet_pton any verdict, ares_is_onion_domain false, ares_htable_szvp_get_direct a query or NULL; nested host_callback "
+               "abstracted by the induction hypothesis (one request off `remaining`; last one: lookup completes exactly once or - soft "
+               "failures only - continues with 1..2 new requests)",
+               "c12_walk_gai_*: for AF_UNSPEC the walk decision is checked against the status of the LAST completing request of a candidate "
+               "(the code keeps only the addresses of the first one, not its status)",
+               "c12_walk_search_*: harness/C01/search.c assumptions (ares_send_nolock contract stub, abstract records)",
                ]
 LIB = ["src/lib/ares_library_init.c"]
 NL_REAL = LIB + ["src/lib/ares_search.c", "src/lib/str/ares_str.c", "src/lib/str/ares_strsplit.c"]
@@ -35,7 +44,7 @@ def namelist_jobs(tier):
                                 "{0,1,2,3,SIZE_MAX}; NOSEARCH / NOALIASES symbolic; HOSTALIASES unset / file readable (alias for the "
                                 "all-'a' name) / missing / unreadable; result compared element by element with ref_candidates()" %
                                 (l, list(cfg))))
-            if cfg in (("x", "y.z"), (".", "x")) and (l in (1, 3) if tier == "quick" else l > 0):
+            if cfg in (("x", "y.z"), (".", "x")) and (l == 2 if tier == "quick" else l > 0):
                 # longest path: 5 allocations in the alias lookup (miss) + list + 3 candidates = 9
                 for k in range(1, 10):
                     J.append(dict(name="c12_namelist_allocfail%d_L%d_%s" % (k, l, tag), harness="namelist.c",
@@ -46,7 +55,85 @@ def namelist_jobs(tier):
     return J
 
 
+WALK_REAL = LIB + ["src/lib/ares_search.c", "src/lib/str/ares_str.c", "src/lib/str/ares_strsplit.c", "src/lib/ares_freeaddrinfo.c",
+                   "src/lib/ares_addrinfo_localhost.c"]
+WALK_SUP = ["vp_rt.c", "valloc.c", "memloops.c", "lock_ghost.c", "dnsrec_abs.c"]
+FAMS = ["unspec", "inet", "inet6"]
+
+
+def walk_witnesses(entry, ni, nd, fam, lk):
+    w = ["end"]
+    if entry == 1:
+        w += ["cancelled", "stopped on data", "stopped on hard error", "ended after last candidate"]
+        if ni != 2 and nd > 0:
+            w += ["moved to next candidate", "request completed the lookup synchronously"]
+        if fam == 0:
+            w.append("sibling outstanding")
+        if lk == "bf":
+            w.append("hosts file after dns")
+    else:
+        if ni == 3:
+            w.append("localhost")
+        else:
+            if fam != 1:
+                w.append("literal")   # a dot-less name can only be an IPv6 literal
+            if lk != "f":
+                w.append("sent first candidate")
+    return w
+
+
+def walk_jobs(tier):
+    J = []
+    names = ["a", "a.b", "a.", "localhost"]
+    for entry in (1, 0):
+        shapes = [(0, 0), (0, 1), (0, 2), (1, 0), (1, 1), (1, 2), (2, 2)] if entry == 1 else [(0, 2), (1, 2), (2, 1), (3, 2)]
+        for ni, nd in shapes:
+            for fam in (0, 1, 2):
+                for lk in ("bf", "fb", "b") + (("f",) if entry == 0 else ()):
+                    nm = names[ni]
+                    J.append(dict(name="c12_walk_gai_e%d_%s_nd%d_%s_%s" % (entry, nm.replace(".", "dot"), nd, FAMS[fam], lk),
+                                  harness="gai_walk.c",
+                                  defines=["-DENTRY=%d" % entry, "-DNAME_IDX=%d" % ni, "-DND=%d" % nd, "-DFAM=%d" % fam,
+                                           "-DLOOKUPS=" + q(lk)],
+                                  real=WALK_REAL, support=WALK_SUP, unwind=18, leak=True, mem_gb=4, timeout=240,
+                                  witnesses=walk_witnesses(entry, ni, nd, fam, lk),
+                                  bound="%s; name '%s', %d search domains of {x, y.z}, ndots 0..2, family %s, lookups \"%s\"; "
+                                        "request stub: pending / synchronous failure with any status / cache answer (nested completion by "
+                                        "induction hypothesis); any completion status 0..24, parse result success+node / no-data / "
+                                        "bad response / out of memory; hosts file any status" %
+                                        ("ares_getaddrinfo from scratch" if entry == 0 else
+                                         "host_callback for ONE outstanding request of ANY candidate index, 1-2 outstanding",
+                                         nm, nd, FAMS[fam], lk)))
+    return J
+
+
+def search_walk_jobs(tier):
+    """The same walk in ares_search.c: harness body shared with C01 (harness/C01/search.c, ENTRY 1 = one search_callback step)."""
+    J = []
+    for ni, nm in enumerate(["a", "a.b", "a."]):
+        for nd in (0, 1, 2):
+            for nos in (0, 1):
+                if nos and nd != 2:
+                    continue
+                J.append(dict(name="c12_walk_search_%s_nd%d_nosearch%d" % (nm.replace(".", "dot"), nd, nos),
+                              harness="../C01/search.c",
+                              defines=["-DENTRY=1", "-DNAME_IDX=%d" % ni, "-DND=%d" % nd, "-DNOSEARCH=%d" % nos],
+                              real=LIB + ["src/lib/str/ares_str.c", "src/lib/str/ares_strsplit.c", "src/lib/record/ares_dns_mapping.c",
+                                          "src/lib/str/ares_buf.c", "src/lib/dsa/ares_array.c", "src/lib/util/ares_math.c",
+                                          "src/lib/dsa/ares_llist.c"],
+                              support=["vp_rt.c", "valloc.c", "memloops.c", "lock_ghost.c", "dnsrec_abs.c"], unwind=17, leak=True,
+                              mem_gb=4, timeout=240, witnesses=["end", "stopped on data or hard error", "ended after last candidate"] +
+                              (["moved to next candidate"] if ni != 2 and nd > 0 and not nos else []),
+                              bound="search_callback for ANY outstanding candidate index of name '%s', %d search domains, ndots 0..2, "
+                                    "NOSEARCH=%d: any completion status / rcode 0..5 / ancount 0..1; candidates in list order, stop at "
+                                    "data or hard error, SERVFAIL/REFUSED soft only for single-label candidates, final status rule" %
+                                    (nm, nd, nos)))
+    return J
+
+
 def jobs(tier, seed):
     J = []
     J += namelist_jobs(tier)
+    J += walk_jobs(tier)
+    J += search_walk_jobs(tier)
     return J
